@@ -2,6 +2,8 @@ package sym
 
 import (
 	"fmt"
+	"go/types"
+	"strings"
 )
 
 // ---------- write monitor (C13 / C20): slots reachable from a watched root are read-only ----------
@@ -48,6 +50,71 @@ func (in *Interp) watchRoots(v Value, tag string) {
 		}
 	}
 	walk(v, tag)
+	in.watchOn = true
+}
+
+// watchObject marks the state of a repo object (a built-in function instance) read-only, guided
+// by its static type: scalar and []byte fields (with their spare capacity), nested structs and
+// pointers to other repo structs are followed; interface-typed fields (the injected stubs) and
+// objects of the harness are not.
+func (in *Interp) watchObject(v Value, t types.Type, tag string, depth int) {
+	if in.watch == nil {
+		in.watch = map[*Value]string{}
+	}
+	if depth > 6 {
+		return
+	}
+	var walkVal func(p *Value, t types.Type, path string)
+	walkVal = func(p *Value, t types.Type, path string) {
+		if p == nil {
+			return
+		}
+		if _, seen := in.watch[p]; seen {
+			return
+		}
+		switch u := t.Underlying().(type) {
+		case *types.Basic:
+			in.watch[p] = path
+		case *types.Struct:
+			if n, ok := t.(*types.Named); ok && n.Obj().Pkg() != nil && (n.Obj().Pkg().Path() == "sync" || n.Obj().Pkg().Path() == "sync/atomic") {
+				return
+			}
+			st, ok := (*p).(Struct)
+			if !ok {
+				return
+			}
+			for i := 0; i < u.NumFields() && i < len(st.F); i++ {
+				walkVal(&st.F[i], u.Field(i).Type(), path+"."+u.Field(i).Name())
+			}
+		case *types.Slice:
+			in.watch[p] = path
+			sl, ok := (*p).(Slice)
+			if !ok {
+				return
+			}
+			if eb, ok := u.Elem().Underlying().(*types.Basic); ok && eb.Info()&types.IsNumeric != 0 {
+				full := sl.A[:cap(sl.A)]
+				for i := range full {
+					in.watch[&full[i]] = fmt.Sprintf("%s[%d]", path, i)
+				}
+			}
+		case *types.Pointer:
+			in.watch[p] = path
+			if n, ok := u.Elem().(*types.Named); ok && n.Obj().Pkg() != nil && isRepoPkg(n.Obj().Pkg().Path()) && !strings.Contains(n.Obj().Pkg().Path(), "zz_verif") {
+				if q, ok := (*p).(*Value); ok && q != nil {
+					in.watchObject(q, u.Elem(), path+"->", depth+1)
+				}
+			}
+		case *types.Map:
+			in.watch[p] = path
+		case *types.Interface:
+			// injected dependency: not part of the function object's own state
+		}
+	}
+	switch x := v.(type) {
+	case *Value:
+		walkVal(x, t, tag)
+	}
 	in.watchOn = true
 }
 
